@@ -482,9 +482,10 @@ fn concurrent_programs() -> Vec<(crate::sched::Program, crate::props::e1::Mode, 
     for (front, mkcfg) in [("plain", e1::plain_cfg as fn(usize) -> crate::ops::StackCfg), ("sharded", e1::sharded_cfg as fn(usize) -> crate::ops::StackCfg)] {
         let sd = crate::ops::shard_dir_name(0);
         let loc = |n: &str| if front == "sharded" { format!("{}/{}", sd, n) } else { n.to_string() };
-        for (cap, npre) in [(4usize, 5usize), (2, 4), (3, 3)] {
+        // (capacity, entries, which are read-marked): the last population makes one pass re-queue several entries
+        for (cap, npre, marks) in [(4usize, 5usize, 0b01010u32), (2, 4, 0b1010), (3, 3, 0b010), (2, 5, 0b00111), (1, 4, 0b1111)] {
             let pre: Vec<crate::sched::Planted> = (0..npre)
-                .map(|i| planted(&loc(&format!("x{}", i)), Val::new(10 + i as u8, Size::One), i % 2 == 1, 20 - i as i64))
+                .map(|i| planted(&loc(&format!("x{}", i)), Val::new(10 + i as u8, Size::One), marks >> i & 1 == 1, 20 - i as i64))
                 .collect();
             let dircap = cap;
             let cfgcap = if front == "sharded" { cap * 2 } else { cap };
@@ -505,6 +506,9 @@ fn concurrent_programs() -> Vec<(crate::sched::Program, crate::props::e1::Mode, 
                 ));
             };
             add("set|deleter-newest", vec![vec![api(Op::Set(m.clone(), v(0)))], vec![POp::Unlink(newest.clone())]]);
+            if npre >= 4 {
+                add("put|deleter-second", vec![vec![api(Op::Put(m.clone(), v(0)))], vec![POp::Unlink(loc("x1"))]]);
+            }
             add("set|deleter-oldest", vec![vec![api(Op::Set(m.clone(), v(0)))], vec![POp::Unlink(oldest.clone())]]);
             add("set|set", vec![vec![api(Op::Set(m.clone(), v(0)))], vec![api(Op::Set(j.clone(), v(1)))]]);
         }
@@ -553,6 +557,30 @@ fn concurrent_check(x: &crate::sched::Execution, capacity: usize) -> Vec<(String
         }
         i += 1;
     }
+    // ... nor fewer: every write maintained before inserting, and what a deleter removes only helps, so when all
+    // is over no directory holds more than capacity + (number of writes) files.  (A pass that gives up silently
+    // because an entry vanished under it leaves the directory over-full with nobody the wiser.)
+    let writes = x.history.iter().filter(|r| matches!(&r.op, crate::sched::POp::Api(o) if o.is_write())).count();
+    let failed = x.history.iter().any(|r| r.outcome.res.is_err() || r.outcome.res.is_panic());
+    let mut per_dir: std::collections::BTreeMap<String, usize> = Default::default();
+    for (rel, n) in &x.final_snapshot {
+        if n.kind != 'f' || !rel.starts_with("w/") || rel.contains(".kismet_temp") {
+            continue;
+        }
+        let p = std::path::Path::new(rel);
+        if p.file_name().map(|n| n.to_string_lossy().starts_with('.')).unwrap_or(true) {
+            continue;
+        }
+        *per_dir.entry(p.parent().unwrap().to_string_lossy().into_owned()).or_default() += 1;
+    }
+    for (dir, n) in per_dir {
+        if !failed && n > capacity + writes {
+            bad.push((
+                "under-eviction".into(),
+                format!("{} ends up with {} files although each of the {} writes maintained it to capacity {} before inserting", dir, n, writes, capacity),
+            ));
+        }
+    }
     bad
 }
 
@@ -567,7 +595,10 @@ pub fn run(tier: Tier, shard: Shard, rep: &mut Report) {
          multiset of {}..={} files x capacity 0..=n+1 x both listing orders through prune. Oracle: classical clock queue \
          under some tie order (constructed, then brute force for n<=8), exact survivor metadata, subdirectories untouched, \
          return value. Plus, under concurrency (a maintaining writer racing with a deleter or another maintainer, all schedules with <= 2 \
-         preemptions): no pass evicts more than (entries it managed to stat) - capacity. Non-trivial = n > capacity and (a tie or \
+         preemptions): no pass evicts more than (entries it managed to stat) - capacity, and in the end no directory holds more than \
+         capacity + (number of writes) files; and with one writer and a deleter of one entry the final directory is exactly the classical \
+         pass on the population with or without that entry (same names, re-queued survivors freshly stamped and unmarked, the rest \
+         untouched). Non-trivial = n > capacity and (a tie or \
          a read mark present).",
         seq_n,
         seq_n + 1,
@@ -646,8 +677,89 @@ pub fn run(tier: Tier, shard: Shard, rep: &mut Report) {
     run::reset_env();
     let all = concurrent_programs();
     let progs: Vec<(crate::sched::Program, crate::props::e1::Mode)> = all.iter().map(|p| (p.0.clone(), p.1)).collect();
-    let mut chk = |pi: usize, x: &crate::sched::Execution| concurrent_check(x, all[pi].2);
+    let mut chk = |pi: usize, x: &crate::sched::Execution| {
+        let mut b = concurrent_check(x, all[pi].2);
+        b.extend(deleter_outcome_check(&all[pi].0, x, all[pi].2));
+        b
+    };
     crate::props::e1::explore_all("C07", &progs, shard, rep, &|_| crate::sched::RunOpts::default(), &mut chk, 500_000);
+}
+
+/// One maintaining writer and one deleter of a single entry d: the deletion lands either before the pass has
+/// seen d (the pass is the classical one on the population without d) or afterwards (the classical pass on the
+/// whole population, d missing at the end).  The final directory must be exactly one of the two: same names,
+/// re-queued survivors freshly stamped and unmarked, all other survivors untouched.
+fn deleter_outcome_check(prog: &crate::sched::Program, x: &crate::sched::Execution, capacity: usize) -> Vec<(String, String)> {
+    use crate::sched::POp;
+    let mut bad = Vec::new();
+    let mut deleted: Option<String> = None;
+    let mut writes = 0;
+    for t in &prog.threads {
+        for op in &t.ops {
+            match op {
+                POp::Unlink(rel) => deleted = Some(rel.clone()),
+                POp::Api(o) if o.is_write() => writes += 1,
+                _ => {}
+            }
+        }
+    }
+    let d = match deleted {
+        Some(d) if writes == 1 && prog.threads.len() == 2 => d,
+        _ => return bad,
+    };
+    if x.history.iter().any(|r| r.outcome.res.is_err() || r.outcome.res.is_panic()) {
+        return bad; // C05's business
+    }
+    let dir = std::path::Path::new(&d).parent().map(|p| p.to_string_lossy().into_owned()).unwrap_or_default();
+    let base = |rel: &str| std::path::Path::new(rel).file_name().unwrap().to_string_lossy().into_owned();
+    // queue order: oldest (largest age) first
+    let mut pop: Vec<(String, bool, i64)> = prog.pre.iter().filter(|p| !p.rel.starts_with('@')).map(|p| (base(&p.rel), p.read_marked, p.age)).collect();
+    pop.sort_by_key(|p| -p.2);
+    let dname = base(&d);
+    let threshold = crate::run::base_time_ns() as i128 - 3_600_000_000_000;
+    // what is there: name -> (fresh, marked)
+    let prefix = if dir.is_empty() { "w/".to_string() } else { format!("w/{}/", dir) };
+    let mut got: BTreeMap<String, (bool, bool)> = BTreeMap::new();
+    for (rel, n) in &x.final_snapshot {
+        if n.kind == 'f' && rel.starts_with(&prefix) && !rel[prefix.len()..].contains('/') && !rel[prefix.len()..].starts_with('.') {
+            got.insert(rel[prefix.len()..].to_string(), (n.meta.mtime > threshold, n.meta.atime >= n.meta.mtime));
+        }
+    }
+    let written = prog.threads.iter().flat_map(|t| t.ops.iter()).find_map(|o| match o {
+        POp::Api(o) if o.is_write() => Some(o.key().name.clone()),
+        _ => None,
+    });
+    let mut candidates: Vec<BTreeMap<String, (bool, bool)>> = Vec::new();
+    for seen_d in [false, true] {
+        let order: Vec<(String, bool)> = pop.iter().filter(|p| seen_d || p.0 != dname).map(|p| (p.0.clone(), p.1)).collect();
+        let ids: Vec<(u32, bool)> = order.iter().enumerate().map(|(i, p)| (i as u32, p.1)).collect();
+        let (ev, mv) = crate::props::c08::classical(&ids, capacity);
+        let mut want: BTreeMap<String, (bool, bool)> = BTreeMap::new();
+        for (i, (name, marked)) in order.iter().enumerate() {
+            if ev.contains(&(i as u32)) || *name == dname {
+                continue;
+            }
+            if mv.contains(&(i as u32)) {
+                want.insert(name.clone(), (true, false));
+            } else {
+                want.insert(name.clone(), (false, *marked));
+            }
+        }
+        if let Some(w) = &written {
+            want.insert(w.clone(), (true, false));
+        }
+        candidates.push(want);
+    }
+    if !candidates.iter().any(|c| *c == got) {
+        bad.push((
+            "deleter-outcome".into(),
+            format!(
+                "directory {:?} ends as {:?} (name -> (freshly stamped, read mark)); with {} deleted before the pass saw it the classical pass gives {:?}, afterwards {:?}",
+                dir, got, dname, candidates[0], candidates[1]
+            ),
+        ));
+    }
+    bad
 }
 
 pub fn replay(case: &Value, rep: &mut Report) {
@@ -656,7 +768,14 @@ pub fn replay(case: &Value, rep: &mut Report) {
         let name = case["program"].as_str().unwrap_or("").to_string();
         let cap = all.iter().find(|p| p.0.name == name).map(|p| p.2).unwrap_or(0);
         let progs: Vec<crate::sched::Program> = all.into_iter().map(|p| p.0).collect();
-        let mut chk = |x: &crate::sched::Execution| concurrent_check(x, cap);
+        let prog = progs.iter().find(|p| p.name == name).cloned();
+        let mut chk = |x: &crate::sched::Execution| {
+            let mut b = concurrent_check(x, cap);
+            if let Some(p) = &prog {
+                b.extend(deleter_outcome_check(p, x, cap));
+            }
+            b
+        };
         crate::props::e1::replay_case("C07", &progs, case, rep, &|| crate::sched::RunOpts::default(), &mut chk);
         return;
     }
